@@ -156,12 +156,17 @@ def map_oracle(case, impl):
             live[pipe] = (i, uri, strat)
         elif p[1] == "rmpipe":
             live.pop(int(p[2]), None)
-        elif p[1] == "get" and not collided:
+        elif p[1] == "get":
             holders = [v for v in live.values() if v[0] == p[2]]
-            want = "%s %s" % (holders[0][1], holders[0][2]) if holders else "none"
-            if out != want:
-                return "key=router-lookup lookup(%s)=%s expected %s" % (p[2], out, want)
-        elif p[1] == "pipe" and not collided:
+            if out != "none":
+                # soundness (all histories): the answer is a live pipe that currently holds this identity
+                if not any(out == "%s %s" % (v[1], v[2]) for v in holders):
+                    return "key=router-lookup-unsound lookup(%s)=%s but live holders are %s" % (p[2], out, holders)
+            if not collided:
+                want = "%s %s" % (holders[0][1], holders[0][2]) if holders else "none"
+                if out != want:
+                    return "key=router-lookup lookup(%s)=%s expected %s" % (p[2], out, want)
+        elif p[1] == "pipe":
             want = live[int(p[2])][0] if int(p[2]) in live else "none"
             want = "h" + bytes.fromhex(want[1:]).hex() if want not in ("none", "-") else want
             if out != want:
